@@ -19,7 +19,7 @@ from collections.abc import Callable, Iterable
 from typing import Any
 
 VERIF_ROOT = os.path.dirname(os.path.dirname(os.path.abspath(__file__)))
-REPO_SRC = "/repo/src"
+REPO_SRC = os.path.realpath(os.environ.get("VERIF_REPO_SRC") or "/repo/src")
 
 
 # ----------------------------------------------------------------------------------------------
